@@ -230,6 +230,9 @@ class Run:
         # the tree under test is /repo unless --repo is given; other trees get their own build directory so that
         # concurrent checks of different trees do not disturb each other
         sub = "" if self.repo == "/repo" else "alt_" + hashlib.sha256(self.repo.encode()).hexdigest()[:8]
+        cov = bool(os.environ.get("VERIF_COV"))       # development aid (tools/coverage.sh): line coverage of /repo by the case sets
+        if cov:
+            sub = "cov"
         d = os.path.join(BUILD, sub, "harness")
         tgt = os.path.join(BUILD, sub, "target")
         os.makedirs(d, exist_ok=True)
@@ -248,12 +251,17 @@ class Run:
             sh(["cp", os.path.join(self.repo, "Cargo.lock"), lock])
         flags = "--cfg " + GUARD
         try:
-            if "verif_set_bitbuf_capacity" in open(os.path.join(self.repo, "webpsan", "src", "lib.rs")).read():
+            libsrc = open(os.path.join(self.repo, "webpsan", "src", "lib.rs")).read()
+            if "verif_set_bitbuf_capacity" in libsrc:
                 flags += " --cfg verif_caphook"      # the C19 capacity hook is present in the tree under test
+            if "pub mod verif_reader" in libsrc:
+                flags += " --cfg verif_readerhook"   # the C15 chunk-reader hook is present in the tree under test
         except OSError:
             pass
+        if cov:
+            flags += " -C instrument-coverage"
         env = {"CARGO_TARGET_DIR": tgt, "RUSTFLAGS": flags}
-        cmd = ["cargo", "build", "--release", "--offline", "-q", "--bin", "h_" + area]
+        cmd = ["cargo"] + (["+nightly"] if cov else []) + ["build", "--release", "--offline", "-q", "--bin", "h_" + area]
         rc, out, err = sh(cmd, cwd=d, timeout=1500, env=env)
         if rc != 0:
             sh(["cp", os.path.join(self.repo, "Cargo.lock"), lock])
@@ -273,6 +281,9 @@ class Run:
         e = dict(os.environ)
         if env:
             e.update(env)
+        if os.environ.get("VERIF_COV"):
+            os.makedirs(os.path.join(BUILD, "cov", "prof"), exist_ok=True)
+            e["LLVM_PROFILE_FILE"] = os.path.join(BUILD, "cov", "prof", "%s-%%p-%%m.profraw" % self.prop)
         for c in chunks:
             p = subprocess.Popen("ulimit -s unlimited 2>/dev/null; exec " + binary, shell=True, stdin=subprocess.PIPE,
                                  stdout=subprocess.PIPE, stderr=subprocess.DEVNULL, text=True, env=e)
@@ -595,7 +606,8 @@ def execute(mod, tier, seed, replay=None, repo="/repo"):
             run.log("UNDISCHARGED obligation: %s %s" % (o[0][:200], o[2][:200]))
     # evidence/<id>.json describes runs against /repo only; a run against another tree (--repo, seeded changes) keeps
     # its record under build/ so that it can never replace the committed evidence
-    evdir = os.path.join(VERIF, "evidence") if repo == "/repo" and not replay else os.path.join(BUILD, "evidence_other")
+    evdir = (os.path.join(VERIF, "evidence") if repo == "/repo" and not replay and not os.environ.get("VERIF_COV")
+             else os.path.join(BUILD, "evidence_other"))
     os.makedirs(evdir, exist_ok=True)
     json.dump(evid, open(os.path.join(evdir, "%s.json" % mod.ID), "w"), indent=1)
     run.log("done exit=%d wall=%.1fs" % (exit_code, time.time() - run.t0))
